@@ -2,6 +2,18 @@ import argparse, importlib, os, sys
 sys.path.insert(0, os.path.dirname(os.path.abspath(__file__)))
 import core
 
+if os.environ.get("VERIF_SERIAL"):
+    # coverage runs (harness/anchcov.py): run the cases of pooled harnesses in-process
+    import multiprocessing as _mp
+    class _SerialPool:
+        def __init__(self, *a, **k): pass
+        def __enter__(self): return self
+        def __exit__(self, *a): return False
+        def map(self, f, xs, chunksize=None): return [f(x) for x in xs]
+    class _Ctx:
+        Pool = staticmethod(lambda *a, **k: _SerialPool())
+    _mp.get_context = lambda *a, **k: _Ctx()
+
 def main():
     ap = argparse.ArgumentParser()
     ap.add_argument("prop")
